@@ -409,6 +409,33 @@ def serveStream (fate : Nat → Bool) : Nat → Nat → Dev → Bytes → Dev ×
 def serve (fate : Nat → Bool) (d : Dev) (bs : Bytes) : Dev × List Outcome :=
   serveStream fate bs.length 0 d bs
 
+/-! ### datagrams (`enip_srv_udp`)
+
+Every datagram gets a fresh input source: the frame parser sees exactly the bytes of that one datagram.  The first
+complete frame of the datagram is processed (bytes behind it are dropped with the source); a datagram that does not
+hold a complete frame fails (`assert not addr`, logged) and is dropped.  There is no session: the loop goes on
+with the next datagram whatever happened, and a reply -- if any -- goes to the sender of the datagram. -/
+
+inductive DgOutcome
+  | dropped                    -- no complete frame in the datagram: nothing is processed
+  | frame (o : Outcome)        -- the datagram's first frame, processed like any frame
+deriving Repr, DecidableEq
+
+def serveDatagram (d : Dev) (dg : Bytes) : Dev × DgOutcome :=
+  match splitFrame dg with
+  | none => (d, .dropped)
+  | some (h, pl, _) =>
+    let (d', o) := serveFrame d h pl
+    (d', .frame o)
+
+/-- the datagram loop: one outcome per datagram, in order of arrival (from whichever peers) -/
+def serveDatagrams (d : Dev) : List Bytes → Dev × List DgOutcome
+  | [] => (d, [])
+  | dg :: rest =>
+    let (d1, o) := serveDatagram d dg
+    let (d2, os) := serveDatagrams d1 rest
+    (d2, o :: os)
+
 /-! ### the no-progress detection of automata.py (`state.run`, `dfa_base.delegate`)
 
 A machine level keeps the *crumbs* `(state, next symbol, symbols sent)` it has seen; coming to a crumb a second
